@@ -191,11 +191,15 @@ def run(prog, rep):
     pc = prog.func("property.BaseProperty.merge_check")
     rep.saw_function(pc)
     copied = set()
-    for n in walk_no_nested(pm.node):
-        if isinstance(n, ast.Assign) and len(n.targets) == 1 and isinstance(n.targets[0], ast.Attribute) \
-                and unparse(n.targets[0].value) == pm.params[0] and isinstance(n.value, ast.Attribute) \
-                and unparse(n.value.value) == pm.params[1]:
-            copied.add(n.targets[0].attr)
+    pmg = build_cfg(pm)
+    pmx = Expander(pm, pmg)
+    for n0 in pmg.nodes:
+        n = n0.ast
+        if n0.kind == "stmt" and isinstance(n, ast.Assign) and len(n.targets) == 1 and isinstance(n.targets[0], ast.Attribute) \
+                and unparse(n.targets[0].value) == pm.params[0]:
+            v = pmx.expand(n.value, n0)
+            if isinstance(v, ast.Attribute) and unparse(v.value) == pm.params[1]:
+                copied.add(n.targets[0].attr)
     rep.check(copied == set(PROP_COPIED), "SIB-2", "Property.merge copies the documented attributes", str(sorted(copied)),
               "Property.merge copies %s, documented: %s" % (sorted(copied), sorted(PROP_COPIED)), pm.where,
               witness="an unset definition/reference/unit/uncertainty/value_origin is not filled from the source")
@@ -260,7 +264,8 @@ def run(prog, rep):
                 if t == "%s.%s is None" % (src, attr):
                     return "THEIRS_UNSET"
                 return None
-            good = vt == "%s.%s" % (src, attr) and known(g, n, clf, lambda a0: a0["MINE_UNSET"] and not a0["THEIRS_UNSET"], ["MINE_UNSET", "THEIRS_UNSET"], with_node=True)
+            good = vt == "%s.%s" % (src, attr) and known(g, n, clf, lambda a0: a0["MINE_UNSET"], ["MINE_UNSET"], with_node=True) \
+                and known(g, n, clf, lambda a0: not a0["THEIRS_UNSET"], ["THEIRS_UNSET"], with_node=True)
             rep.check(good, "FILL-1", "%s: fill %s" % (f.short, attr), "%s.%s is None and %s.%s is not None" % (me, attr, src, attr),
                       "attribute %s is copied from %s on a path that does not know (%s.%s is None and %s.%s is not None)" % (attr, vt, me, attr, src, attr),
                       where(f, st), witness="a set %s of the destination (e.g. a falsy but set value such as uncertainty 0) is overwritten, "
